@@ -216,7 +216,7 @@ fn run_history(h: &Hist) -> (Hist, Vec<Obs>) {
     let exe = std::env::current_exe().expect("exe");
     let tdir = std::env::temp_dir().join(format!("tvh-c25-{}-{}.d", std::process::id(), n));
     let _ = std::fs::create_dir_all(&tdir);
-    let cmd = format!("ulimit -v 400000; exec '{}' child '{}'", exe.display(), f.display());
+    let cmd = format!("ulimit -v 250000; exec '{}' child '{}'", exe.display(), f.display());
     let outp = std::process::Command::new("sh").arg("-c").arg(&cmd).env("TMPDIR", &tdir).env("RUST_BACKTRACE", "0")
         .stderr(std::process::Stdio::null()).output();
     let _ = std::fs::remove_file(&f);
@@ -415,7 +415,9 @@ fn gen_hist(rng: &mut Rng, kind: Kind, max_ops: usize) -> Hist {
     let mut top_row: Option<(u64, u8)> = None; // row of the node that should be the entry point
     let mut last_q: Option<(Vec<i32>, usize, usize)> = None;
     let mut used: usize = 64; // page bytes in use; only the Overflow family goes past half a page (F-C25-3)
+    let mut past: usize = 0; // calls made after the first page went past half full
     while ops.len() < n_ops {
+        if used > 8192 { past += 1; if past > 8 { break; } }
         let mut c = rng.below(100);
         let mut want_insert = live.len() < 2 || c < 45 || (kind == Kind::Overflow && c < 80);
         if want_insert && kind != Kind::Overflow && used + node_bytes(0) + 4 > 8192 {
